@@ -641,3 +641,5 @@ func sortedKeys(m map[string]int) []string {
 	sort.Strings(ks)
 	return ks
 }
+
+func simrtIsAbort(p interface{}) bool { return simrt.IsAbort(p) }
